@@ -74,6 +74,10 @@ namespace reflect {
             {
                 return result_type(json_type_traits<Json,T>::as(j));
             }
+            JSONCONS_CATCH (const std::bad_alloc&)
+            {
+                JSONCONS_RETHROW;
+            }
             JSONCONS_CATCH (...)
             {
                 return result_type(jsoncons::unexpect, conv_errc::conversion_failed );
